@@ -452,6 +452,73 @@ def check_cli(case, acc):
     acc.outcome(tuple(got))
 
 
+def check_reuse(case, acc):
+    """Run 1 fails inside a NESTED include (missing / broken file at depth 2); run 2 uses the SAME options object:
+    its relative includes must resolve against its own base (the host's urlFn), exactly as on a fresh options object."""
+    bs = load_impl()
+    from bare_script.options import url_file_relative  # pylint: disable=import-outside-toplevel,import-error
+    fault = case['fault']
+    files = {
+        'proj/lib/a.bare': "systemLog('a-in')\ninclude 'sub/b.bare'\nsystemLog('a-out')\n",
+        'proj/lib/sub/b.bare': "systemLog('b')\n",
+        'proj/c.bare': "systemLog('c')\n",
+        'proj/lib/c.bare': "systemLog('WRONG lib/c')\n",
+        'proj/lib/sub/c.bare': "systemLog('WRONG lib/sub/c')\n",
+    }
+    if fault == 'missing':
+        del files['proj/lib/sub/b.bare']
+    elif fault == 'broken':
+        files['proj/lib/sub/b.bare'] = 'zz = (1 +\n'
+    elif fault == 'runtime-error':
+        files['proj/lib/sub/b.bare'] = "systemLog('b')\nmissing()\n"
+    fetched = []
+
+    def fetch(req):
+        key = urls.normalize(req['url'])
+        fetched.append(key)
+        return files.get(key)
+
+    logs = []
+    options = {'globals': {}, 'logFn': logs.append, 'fetchFn': fetch, 'urlFn': functools.partial(url_file_relative, 'proj/main.bare'), 'maxStatements': 500}
+    acc.evals += 2
+    acc.states += 1
+    acc.transitions += 2
+    acc.traces += 1
+    try:
+        bs.execute_script(bs.parse_script("include 'lib/a.bare'\n"), options)
+        first = 'ok'
+    except (bs.BareScriptRuntimeError, bs.BareScriptParserError) as exc:
+        first = type(exc).__name__
+    except Exception as exc:  # pylint: disable=broad-exception-caught
+        acc.violation(case, 'a documented exception', (type(exc).__name__, str(exc)[:200]), 'run 1 raised a host exception')
+        return
+    want_first = 'ok' if fault == 'none' else ('BareScriptParserError' if fault == 'broken' else 'BareScriptRuntimeError')
+    if first != want_first:
+        acc.violation(case, want_first, first, 'run 1: unexpected outcome')
+        return
+    del fetched[:]
+    del logs[:]
+    try:
+        bs.execute_script(bs.parse_script("include 'c.bare'\n"), options)
+    except Exception as exc:  # pylint: disable=broad-exception-caught
+        acc.violation(case, 'run 2 completes', (type(exc).__name__, str(exc)[:200]), 'the second run with the same options failed')
+        return
+    if fetched != ['proj/c.bare'] or logs != ['c']:
+        acc.violation(case, {'fetches': ['proj/c.bare'], 'logs': ['c']}, {'fetches': fetched, 'logs': logs},
+                      'after a failed nested include the same options object resolves includes against the wrong base')
+    acc.nontrivial += 1
+    acc.outcome((fault, first))
+
+
+def fam_reuse(arg):
+    acc = Acc('reuse')
+    for case in arg:
+        acc.cases += 1
+        check_reuse(case, acc)
+    acc.sample(arg[0])
+    return acc.result()
+
+
 def fam_cli(arg):
     acc = Acc('cli')
     for seq in arg:
@@ -474,12 +541,13 @@ def families(tier):
     nf = [{'root': r, 'form': f} for r in range(len(ROOTS)) for f in FORMS]
     return [
         Family('trees', fam_trees, split(cs, 64), 'include trees per mc/props/C17.plan(tier): chains with all six reference forms, fan-out 2 trees, four root configurations, fault answers on every fetch', expected=len(cs)),
+        Family('reuse', fam_reuse, [[{'fault': f} for f in ('none', 'missing', 'broken', 'runtime-error')]], 'a run whose nested include fails (missing file, syntax error, runtime error at depth 2) or succeeds, followed by a second run with the SAME options object', expected=4),
         Family('cli', fam_cli, split(cli, 16), f'bare_script.bare.main with every sequence of <= {maxseq} scripts over {{a file in a sub-directory, a file in the working directory, inline code with an include, inline code, a file with a system include}} on real temporary files', expected=len(cli)),
         Family('nofetch', fam_nofetch, [nf], 'no fetchFn: every reference form x root configuration', expected=len(nf)),
     ]
 
 
-_CHECKS = {'cli': check_cli, 'trees': check_tree, 'nofetch': check_nofetch}
+_CHECKS = {'reuse': check_reuse, 'cli': check_cli, 'trees': check_tree, 'nofetch': check_nofetch}
 
 
 def replay(family, case):
